@@ -2,13 +2,13 @@ package main
 
 import (
 	"bytes"
-	"strings"
 	"encoding/json"
 	"fmt"
 	"io"
 	"math/rand"
 	"os"
 	"path/filepath"
+	"strings"
 	"syscall"
 	"time"
 
@@ -22,16 +22,16 @@ import (
 // atomicScn: a multi-file session to a real receiver, delivered one wire unit
 // at a time (C04).
 type atomicScn struct {
-	ID    int      `json:"id"`
-	Kinds []string `json:"kinds"` // per file: new | replace
-	NToks []int    `json:"ntoks"` // per file: number of tokens
-	Recv  string   `json:"recv"`
-	Mode  string   `json:"mode"`  // freeze | cut | cutup | kill
-	N     int      `json:"n"`     // cut: byte offset; kill: unit number
-	Batch bool     `json:"batch"` // reference sender reads all requests before answering
-	Delay int      `json:"delay"` // kill: microseconds to wait after the last unit before SIGKILL
-	SnapOnDeath bool `json:"snap_on_death"`
-	Long  bool     `json:"long"` // the second file has a 250-byte name (temp-file name creation is strained)
+	ID          int      `json:"id"`
+	Kinds       []string `json:"kinds"` // per file: new | replace
+	NToks       []int    `json:"ntoks"` // per file: number of tokens
+	Recv        string   `json:"recv"`
+	Mode        string   `json:"mode"`  // freeze | cut | cutup | kill
+	N           int      `json:"n"`     // cut: byte offset; kill: unit number
+	Batch       bool     `json:"batch"` // reference sender reads all requests before answering
+	Delay       int      `json:"delay"` // kill: microseconds to wait after the last unit before SIGKILL
+	SnapOnDeath bool     `json:"snap_on_death"`
+	Long        bool     `json:"long"` // the second file has a 250-byte name (temp-file name creation is strained)
 }
 
 type atomicEvent struct {
@@ -54,17 +54,17 @@ type atomicFinal struct {
 }
 
 type atomicObs struct {
-	ID     int           `json:"id"`
-	Recv   string        `json:"recv"`
-	Mode   string        `json:"mode"`
-	Kinds  []string      `json:"kinds"`
-	NToks  []int         `json:"ntoks"`
-	Events []atomicEvent `json:"events"`
-	Final  atomicFinal   `json:"final"`
-	Bytes  int64         `json:"bytes"` // bytes the reference sender wrote after the handshake
-	UpBytes int64        `json:"upbytes"`
-	Weak   bool          `json:"weak"` // judge atomicity only (the session may legitimately fail at the long name)
-	Scn    json.RawMessage `json:"scn"`
+	ID      int             `json:"id"`
+	Recv    string          `json:"recv"`
+	Mode    string          `json:"mode"`
+	Kinds   []string        `json:"kinds"`
+	NToks   []int           `json:"ntoks"`
+	Events  []atomicEvent   `json:"events"`
+	Final   atomicFinal     `json:"final"`
+	Bytes   int64           `json:"bytes"` // bytes the reference sender wrote after the handshake
+	UpBytes int64           `json:"upbytes"`
+	Weak    bool            `json:"weak"` // judge atomicity only (the session may legitimately fail at the long name)
+	Scn     json.RawMessage `json:"scn"`
 }
 
 func init() { handlers["atomic"] = atomicHandler }
